@@ -472,6 +472,11 @@ func (vc *VC) updatePath(top string, path []pathSel, v string) string {
 }
 
 func (vc *VC) store(h *Heap, a *Addr, v string) {
+	if name, ok := vc.prog.contracts.countStores[a.comp]; ok && len(a.path) == 0 {
+		g := "Gcnt_" + name
+		vc.compDecl(g, SInt)
+		vc.set(h, g, app("+", vc.get(h, g), "1"))
+	}
 	c := vc.get(h, a.comp)
 	nv := v
 	if len(a.path) > 0 {
